@@ -111,9 +111,32 @@ def line_mutants(code):
     return out
 
 
+def arm_mutants(f, lines):
+    """third wave: single-line match arms - delete one (falls through to the wildcard arm; matches without one do not
+    compile and are dropped), swap the right-hand sides of two adjacent arms, and `= Some(..)` / `Some(..)` results -> None"""
+    out = []
+    arm = re.compile(r"^(\s*)([^=/{}][^=]*?) => ([^{}]+),\s*$")
+    for k, (i, l) in enumerate(lines):
+        m = arm.match(l)
+        if m and m.group(2).strip() != "_":
+            out.append({"file": f, "line": i + 1, "old": l, "new": "", "op": "delete match arm"})
+            if k + 1 < len(lines) and lines[k + 1][0] == i + 1:
+                m2 = arm.match(lines[k + 1][1])
+                if m2 and m2.group(2).strip() != "_" and m2.group(3) != m.group(3):
+                    out.append({"file": f, "line": i + 1, "old": l, "new": "%s%s => %s," % (m.group(1), m.group(2), m2.group(3)),
+                                "line2": i + 2, "old2": lines[k + 1][1], "new2": "%s%s => %s," % (m2.group(1), m2.group(2), m.group(3)), "op": "swap adjacent arm results"})
+        m = re.match(r"^(\s*[\w.#]+ = )Some\((.+)\);\s*$", l)
+        if m:
+            out.append({"file": f, "line": i + 1, "old": l, "new": m.group(1) + "None;", "op": "Some(..) -> None"})
+    return out
+
+
 def candidates():
     c = []
     for f in FILES:
+        if os.environ.get("AUTO_WAVE") == "3":
+            c.extend(arm_mutants(f, production_lines(f)))
+            continue
         for (i, l) in production_lines(f):
             code = l.split("//")[0]
             if os.environ.get("AUTO_WAVE") == "2":
@@ -170,6 +193,10 @@ def run(slot, first, count, scale):
         if lines[m["line"] - 1] != m["old"]:
             continue
         lines[m["line"] - 1] = m["new"]
+        if "line2" in m:
+            if lines[m["line2"] - 1] != m["old2"]:
+                continue
+            lines[m["line2"] - 1] = m["new2"]
         open(path, "w").write("\n".join(lines))
         rec = dict(m)
         t0 = time.time()
@@ -197,6 +224,7 @@ def run(slot, first, count, scale):
                     rec["checks"][p] = "inconclusive" if out.startswith("INCONCLUSIVE") else "ok"
         rec["seconds"] = int(time.time() - t0)
         rec.pop("old", None)
+        rec.pop("old2", None)
         open(results, "a").write(json.dumps(rec) + "\n")
         print("%s %s:%d [%s] -> %s %s (%ds)" % (m["id"], m["file"], m["line"], m["op"], rec["status"], rec.get("detected_by", ""), rec["seconds"]), flush=True)
     sh("git checkout -q -- .", cwd=wt)
